@@ -9,12 +9,14 @@ RULE = (
     "full products over a 7-symbol field alphabet (x >f8, v <i2 (2,), s S3, u <U2, xv >i4 (2,2), b i1 and "
     "one seed-chosen generic field g; the name 'xv' contains two other names): base arrays = every "
     "ORDERED selection of 1..3 (T: 1..4) fields x shape {(), (3,), (2,2)} (+ (1,), (0,) for the short "
-    "selections), deterministic non-zero contents; [select] x every ordered selection of <=3 names "
+    "selections), plus every selection of 1..2 (T: 1..3) fields of the same alphabet in the OPPOSITE "
+    "byte order, deterministic non-zero contents; [select] x every ordered selection of <=3 names "
     "from (the array's names + one of two missing names: 'zz' / the upper-cased first name) x "
     "container {scalar,list,tuple,ndarray} x strict {on,off} for extract_fields/reorder_fields, "
-    "{scalar,list} for remove_fields, and x getnames for split_fields(fields=); [add] x 8 descriptor "
-    "forms (list / np.dtype object, scalar and sub-array fields, non-native order, clashing names) x "
-    "defaults {None, per-field scalars, sub-array shaped, bare scalar}; [combine] every ordered "
+    "{scalar,list} for remove_fields, and x getnames for split_fields(fields=); [add] x 5 fresh "
+    "descriptors (list / np.dtype object, scalar and sub-array fields, non-native order) x defaults "
+    "{None, per-field scalars, sub-array shaped, bare scalar} and 3 descriptors with a clashing name "
+    "(first / last existing name, before / after a fresh one) x {list, np.dtype} x defaults on/off; [combine] every ordered "
     "selection of 1..4 of 6 disjoint arrays x shape x {list,tuple}, every list of 2..4 with a shared "
     "name, every list of 2..4 with one array of another length, the empty list; [copy] every (source "
     "selection) x (target made of 1..2 (T: 3) of the 7 names, each with the same or a wider/byte-"
@@ -48,6 +50,9 @@ ASSUMPTIONS = [
 
 F = [("x", ">f8", ()), ("v", "<i2", (2,)), ("s", "S3", ()), ("u", "<U2", ()),
      ("xv", ">i4", (2, 2)), ("b", "i1", ())]
+# the same names in the opposite byte order (s and b have none)
+FSWAP = [("x", "<f8", ()), ("v", ">i2", (2,)), ("s", "S3", ()), ("u", ">U2", ()),
+         ("xv", "<i4", (2, 2)), ("b", "i1", ())]
 # the seed picks ONE generic representative that joins the six fixed symbols
 GENERIC = [("g", ">U3", (2,)), ("g", "<u8", ()), ("g", ">c8", (3,)), ("g", "?", ()),
            ("g", ">u2", (2, 1)), ("g", "<f4", (1,)), ("g", ">i8", ()), ("g", "S1", (3,))]
@@ -377,8 +382,12 @@ def main(ctx):
         for getnames in (False, True):
             yield ("split", fields, shape, cseed, None, "none", getnames)
 
-    ctx.lattice("select", base_units(F7, KQ, ctx.pick(2, 4)), one_select, expand=expand_select,
-                bounds=dict(alphabet=F7, max_fields=KQ, max_names=NSEL, shapes=MAIN_SHAPES,
+    # the byte-swapped alphabet: only arrays that contain a field with a byte order
+    KSW = ctx.pick(2, 3)
+    swapped_units = [u for u in base_units(FSWAP, KSW, KSW) if any(f not in F for f in u[0])]
+    ctx.lattice("select", base_units(F7, KQ, ctx.pick(2, 4)) + swapped_units, one_select, expand=expand_select,
+                bounds=dict(alphabet=F7, max_fields=KQ, swapped_alphabet=FSWAP, max_fields_swapped=KSW,
+                            max_names=NSEL, shapes=MAIN_SHAPES,
                             small_shapes=SMALL_SHAPES, missing=[MISSING, "<first name upper-cased>"],
                             containers=["scalar", "list", "tuple", "array"],
                             ops=["extract_fields", "reorder_fields", "remove_fields", "split_fields"]))
@@ -444,8 +453,8 @@ def main(ctx):
                 for dv in (None, [1] * len(add)):
                     yield ("add", fields, shape, cseed, add, as_dtype, dv)
 
-    ctx.lattice("add", base_units(F7, KQ, ctx.pick(2, 4)), one_add, expand=expand_add,
-                bounds=dict(alphabet=F7, max_fields=KQ, descriptors=[a[0] for a in ADDS],
+    ctx.lattice("add", base_units(F7, KQ, ctx.pick(2, 4)) + swapped_units, one_add, expand=expand_add,
+                bounds=dict(alphabet=F7, max_fields=KQ, swapped_alphabet=FSWAP, max_fields_swapped=KSW, descriptors=[a[0] for a in ADDS],
                             clashes=["first name", "fresh+last name", "last name+fresh"]))
 
     # ======================================================================
